@@ -282,3 +282,31 @@ def gen_scenario(rng, profile=None):
         sc.append(['pipes'] + list(p['pipes']))
     sc.append(['roots'] + roots)
     return sc
+
+
+# ------------------------------------------------------------------------------------------------
+# structured families: a set of contender tasks inside one scope plus fault injectors
+def gen_contenders(rng, make_body, n=None, fault=True, until=None, scope_name=0, base_task=0):
+    """root program: `scope { spawn contender_i ... ; (injected faults) }`.
+
+    make_body(i) -> program of contender i.  Faults: cancel of contender j by a separate root
+    activity after `t` time units and `k` postponements (covers the activation boundaries inside a
+    time step), or an until-deadline closing everybody, or a volatile contender closed at scope end."""
+    n = n or rng.randint(2, 4)
+    spawns = []
+    for i in range(n):
+        after = rng.choice([None, None, F(1, 2), 1])
+        vol = fault and rng.random() < 0.15
+        spawns.append(['spawn', scope_name, base_task + i, after, None, vol, ['prog'] + make_body(i)])
+    un = ['none']
+    if until is not None:
+        un = ['delay', until]
+    body = spawns + [['sleep', rng.choice([0, 1, 2, 4])]]
+    roots = [['prog', ['scope', scope_name, un] + body, ['log', 999]]]
+    if fault:
+        for _ in range(rng.randint(0, 2)):
+            j = rng.randrange(n)
+            prog = [['sleep', rng.choice([0, F(1, 2), 1, 1, 2, 3])]] + [['sleep', 0]] * rng.randint(0, 4) + \
+                [['cancel', base_task + j, rng.randint(1, 9)]]
+            roots.append(['prog'] + prog)
+    return roots
